@@ -121,7 +121,10 @@ func GenC07(seed uint64) *Scenario {
 		}
 		s.History = append(s.History, h)
 	}
-	if r.Chance(1, 3) {
+	if r.Chance(1, 6) {
+		s.Ghost = []int{30, 100, 300}[r.Intn(3)]
+		s.Family = "cache_subsets_concurrent_writer"
+	} else if r.Chance(1, 3) {
 		// tier2 workers die between two of their writes; the retried job finds what the dead one left
 		s.Rates = map[string]int{"t2_crash": []int{80, 200, 400}[r.Intn(3)]}
 		s.MaxF = map[string]int{"t2_crash": r.Range(1, 4)}
